@@ -7,6 +7,9 @@ usage: confirm_seed.py <name> <patch> <demo src> <demo dst relative to repo> <cr
 import json, os, shutil, subprocess, sys, time
 name, patch, demo, dst, crate, test = sys.argv[1:7]
 release = "--release" in sys.argv
+extra = []
+if "--cargo-args" in sys.argv:
+    extra = sys.argv[sys.argv.index("--cargo-args") + 1].split()
 base = f"/tmp/seedconf/{name}"
 os.makedirs("/tmp/seedconf", exist_ok=True)
 subprocess.run(["git", "-C", "/repo", "worktree", "remove", "--force", base], stderr=subprocess.DEVNULL)
@@ -31,7 +34,7 @@ try:
         res["suite_with_change"] = {"cmd": "cargo test --workspace --no-fail-fast --offline", "rc": rc, "wall_s": t, "tail": out[-300:] if rc else ""}
         os.makedirs(os.path.dirname(os.path.join(base, dst)), exist_ok=True)
         shutil.copy(demo, os.path.join(base, dst))
-        cmd = ["cargo", "test", "--offline", "-p", crate, "--test", test] + (["--release"] if release else []) + ["--", "--test-threads=1"]
+        cmd = ["cargo", "test", "--offline", "-p", crate, "--test", test] + (["--release"] if release else []) + extra + ["--", "--test-threads=1"]
         rc, out, t = run(cmd, timeout=900)
         res["demo_with_change"] = {"cmd": " ".join(cmd), "rc": rc, "wall_s": t, "tail": out[-600:]}
         subprocess.run(["git", "-C", base, "apply", "-R", "--whitespace=nowarn", patch], check=False)
